@@ -597,24 +597,16 @@ func TestVerifC07Seek(t *testing.T) {
 							x.Tag("seek-ok-past-end")
 						}
 					} else {
-						// The statement allows an error; it does not say where the position is
-						// afterwards. Ask the joiner (Seek(0, current) requests "where I am").
 						fails++
 						x.Tag(fmt.Sprintf("seek-error-whence=%d", whence))
 						x.Check(target < 0 || target > int64(f.l), "seek-rejects-valid", "%v Seek(%d, whence=%d) from %d requests position %d inside [0,size] but failed: %v", f, o, whence, pos, target, err)
-						cur, err2 := j.Seek(0, io.SeekCurrent)
-						if err2 != nil {
-							// position unknown: nothing more can be required of this sequence
-							x.Outcome("position-unknown-after-rejected-seek")
-							return
-						}
-						x.Check(cur >= 0, "seek-negative-accepted", "%v position after a rejected seek is %d", f, cur)
-						if cur == pos {
-							x.Tag("position-unchanged-after-rejected-seek")
-						} else {
-							x.Tag("position-moved-by-rejected-seek")
-						}
-						pos = cur
+						// A Seek that reports an error has not taken place: the reader stays where it
+						// was, otherwise the next sequential read would skip or repeat content (the
+						// sequential-read clause of the statement; this is also what io.Seeker users
+						// rely on). The model position is left unchanged and the following reads are
+						// judged against it.
+						x.Check(j.off == pos, "rejected-seek-moved-position", "%v Seek(%d, whence=%d) from %d was rejected (%v) but moved the sequential position to %d", f, o, whence, pos, err, j.off)
+						x.Tag("position-unchanged-after-rejected-seek")
 					}
 				case op < 3*len(soffs)+len(rlens):
 					read(rlens[op-3*len(soffs)])
